@@ -24,14 +24,17 @@ var r09Dropped = map[string]string{
 	"rpc.builder.buildRequest/CopyReq#1":                "writer errors are sticky (R12.3/R12.6): the w.Build() that follows returns it",
 	"rpc.builder.buildResponse/Any#1":                    "writer errors are sticky: the w1.End() that follows returns it",
 	"rpc.Request.AddMessage/CopyInput#1":                 "writer errors are sticky: the call.End() that follows returns it",
-	"mpx.openChannel/recvQueue.Write#1":                  "receive queue is unbounded (R03.6) and freshly reset: Write cannot fail",
-	"mpx.channelState.receiveData/recvQueue.Write#1":     "unbounded queue (R03.6); an End status means the channel was freed concurrently and the frame is dropped on purpose (R06.4)",
-	"mpx.channelState.receiveClose/recvQueue.Write#1":    "unbounded queue (R03.6); an End status means the channel was freed concurrently and the payload is dropped on purpose (R06.4)",
-	"mpx.conn.close/conn.Close#1":                        "teardown: the error of closing the socket changes nothing, the connection is closed either way",
-	"mpx.conn.Free/Close#1":                              "Free has no result; Close's status only says whether this call was the one that closed",
-	"mpx.client.Close/Close#1":                           "teardown of each connection; the client's own status is returned separately",
-	"mpx.client.connectRecover/Close#1":                  "the freshly dialled connection is discarded because the client was closed meanwhile; the closed status is returned",
 	"mpx.debugPrint/Println#1":                           "debug output",
+}
+
+// reviewed by callee: the reason lies in what is called, not in who calls it, so the site may move between functions.
+// package -> callee label -> reason
+var r09DroppedCallee = map[string]map[string]string{
+	"mpx": {
+		"recvQueue.Write": "the receive queue is unbounded (R03.6 proves no limit is ever configured): Write cannot refuse data; an End status means the channel was freed concurrently and the payload is dropped on purpose (R06.4)",
+		"conn.Close":      "closing the socket: the error changes nothing, the connection is closed either way and no operation's result depends on it",
+		"Close":           "closing a connection during teardown / discard: Close's status reports only the socket's close error, the caller's own status is produced separately",
+	},
 }
 
 func runR09_7(c *Ctx, r *R) {
@@ -92,6 +95,10 @@ func runR09_7(c *Ctx, r *R) {
 				}
 				if why := r09Dropped[key]; why != "" {
 					r.OK(key, call.Pos(), "reviewed: %s", why)
+					continue
+				}
+				if why := r09DroppedCallee[rel][lbl]; why != "" {
+					r.OK(key, call.Pos(), "reviewed (by callee): %s", why)
 					continue
 				}
 				// a callee whose status result is OK on every return carries no failure to drop
